@@ -22,7 +22,10 @@ def main(argv):
 
             for i in range(int(argv[1])):
                 case = C07.generate(core.run_seed("C07", 20_000_000 + i), argv[2])
-                print("TRACE " + core.digest(C07.trace_of(case)), flush=True)
+                try:
+                    print("TRACE " + core.digest(C07.trace_of(case)), flush=True)
+                except core.Violation as v:  # reported by the batch itself; here only hash-seed independence matters
+                    print("TRACE violation:" + v.sig, flush=True)
             return 0
         if argv[0] == "--c07-trace":
             core.sut()
@@ -30,7 +33,10 @@ def main(argv):
 
             from .props import C07
 
-            print("TRACE " + core.digest(C07.trace_of(json.loads(argv[1]))), flush=True)
+            try:
+                print("TRACE " + core.digest(C07.trace_of(json.loads(argv[1]))), flush=True)
+            except core.Violation as v:
+                print("TRACE violation:" + v.sig, flush=True)
             return 0
         if argv[0] == "setup":
             h = core.sut()
